@@ -20,18 +20,6 @@ def vocabFactsB (L : LFormat) : Bool :=
   L.setBrackets.all (fun p => (p.1 == ['{'] && p.2 == ['}']) || (p.1 == ['['] && p.2 == [']'])) &&
   L.atomPrefixes.all prefixOKB
 
-mutual
-  /-- the names: a placeholder has none; every other name begins with a letter or a number, consists of
-  letters, numbers, `_`, `-`, does not end in `-`, and contains no `punct "-" punct` pattern (K3) -/
-  def gNamesB : LTerm → Bool
-    | .atom pre name => if pre == ['_'] then name.isEmpty else gNameOKB name
-    | .compound _ ts => gNamesBs ts
-    | .set _ ts _ => gNamesBs ts
-    | .stmt _ s p => gNamesB s && gNamesB p
-  def gNamesBs : LTerms → Bool
-    | .nil => true
-    | .cons t ts => gNamesB t && gNamesBs ts
-end
 
 theorem isNumCh_dd (c : Char) : isNumCh c = ddB c := by
   simp only [isNumCh, ddB, isDigit, inRanges]
@@ -114,12 +102,6 @@ theorem gSent_of_wf (s : LSentence) (hw : sentOKB L s = true) (hn : gNamesB s.te
   simp only [sentOKB, Bool.and_eq_true, List.contains_eq_mem, decide_eq_true_eq, List.all_eq_true] at hw
   simp only [gSentOKB, Bool.and_eq_true, List.all_eq_true]
   exact ⟨⟨⟨gTerm_of_wf hV s.term hw.1.1.1 hn, hp _ hw.1.1.2⟩, hst⟩, fun x hx => numStr_gNum (hw.2 x hx)⟩
-
-/-- what the grammar-side needs beyond the lexical well-formedness of C02 -/
-def gExtraB (L : LFormat) : LNarsese → Bool
-  | .term t => gNamesB t && dollarOKB (L.fmtTerm t)
-  | .sentence s => gNamesB s.term && gStampB s.stamp && dollarOKB (L.fmtSentence s)
-  | .task k => gNamesB k.sentence.term && gStampB k.sentence.stamp
 
 theorem gVal_of_wf (v : LNarsese) (hw : wfLNB L v = true) (hx : gExtraB L v = true) : gValOKB L v = true := by
   cases v with
